@@ -323,6 +323,7 @@ func runHubScenario(seed int64, maxEv int, port int) *hubScenario {
 			sinceDelayed = -1
 			continue
 		}
+		slowNext := func(choice int) bool { return (choice >= 48 && choice < 62) || choice >= 91 }
 		choice := rnd.Intn(100)
 		// now and then a realistic episode instead of independent events: a connection of an SKI comes up, its
 		// handshake ends one way or another, the connection closes, the service is seen again via mDNS
@@ -346,8 +347,14 @@ func runHubScenario(seed int64, maxEv int, port int) *hubScenario {
 				}
 			}
 		}
-		scriptedNow := forcedSt >= 0 || choice == 95 && len(script) > 0
-		_ = scriptedNow
+		// a delayed notification (500 ms) is under way and the next event takes 400 ms to settle: let the delay pass
+		// first, so that the event in which the notification shows does not depend on the clock
+		if sinceDelayed >= 1 && slowNext(choice) {
+			time.Sleep(2200 * time.Millisecond)
+			settle(300 * time.Millisecond)
+			record("tick", nil)
+			sinceDelayed = -1
+		}
 		delayedCreated := false
 		switch {
 		case choice < 16:
